@@ -20,7 +20,7 @@ pub static DEF: PropDef = PropDef {
         "the build has debug assertions and overflow checks on, so any out-of-bounds access inside the machine panics and is reported",
     ],
     shards: (32, 128),
-    budget_ms: (10_000, 30_000),
+    budget_ms: (60_000, 180_000),
 };
 
 fn run(ctx: &Ctx, out: &mut Out) {
